@@ -141,8 +141,8 @@ def cache_sizes():
 
 
 class Monitor:
-    """Counts PY_START / PY_RETURN / LINE / JUMP events in shapepy code objects and
-    optionally raises at a chosen event.
+    """Counts PY_START / PY_RETURN / LINE / JUMP / C_RETURN events in shapepy code objects
+    and optionally raises at a chosen event.
 
     mode 'structural': only code objects of shape.py / jordancurve.py / primitive.py /
     plot.py are armed (crash point k is the k-th structural event);
@@ -184,6 +184,11 @@ class Monitor:
         MON.register_callback(self.tool, EV.PY_RETURN, self._on_return)
         MON.register_callback(self.tool, EV.LINE, self._on_line)
         MON.register_callback(self.tool, EV.JUMP, self._on_jump)
+        # returns from C callables (len, tuple, numpy, Fraction arithmetic ...): the other half
+        # of "each internal call boundary"; C_RETURN / C_RAISE are delivered only while CALL is on
+        MON.register_callback(self.tool, EV.CALL, self._on_call)
+        MON.register_callback(self.tool, EV.C_RETURN, self._on_c_return)
+        MON.register_callback(self.tool, EV.C_RAISE, self._on_c_return)
 
     @classmethod
     def get(cls):
@@ -226,6 +231,12 @@ class Monitor:
     def _on_jump(self, code, src, dst):
         self._event("J", code, src)
 
+    def _on_call(self, code, offset, callable_, arg0):
+        return None
+
+    def _on_c_return(self, code, offset, callable_, arg0):
+        self._event("C", code, offset)
+
     # -- arming ----------------------------------------------------------
     def _arm(self, mode, events):
         codes = {"structural": self.structural, "tables": self.table_codes}.get(mode, self.codes)
@@ -243,7 +254,7 @@ class Monitor:
         """Run fn() under the monitor.  Returns (outcome, payload, info) where outcome is
         'return' | 'raise' and payload the value / exception.  info has count, fired,
         fired_site, trace."""
-        events = EV.PY_START if light else (EV.PY_START | EV.PY_RETURN | EV.LINE | EV.JUMP)
+        events = EV.PY_START if light else (EV.PY_START | EV.PY_RETURN | EV.LINE | EV.JUMP | EV.CALL)
         self.count = 0
         self.target = target
         self.exc_factory = exc
